@@ -350,14 +350,119 @@ def explore(cfg, depth, P, batches):
         execs += 1
         for fp, text in r["bad"]:
             note(classify(fp, text, cfg), text, r["hist"])
-    return {"states": states, "transitions": transitions, "execs": execs, "viols": list(viols.values()), "samples": samples}
+    return {"states": states, "transitions": transitions, "execs": execs, "viols": list(viols.values()), "samples": samples, "histories": all_states}
+
+
+# ---------------------------------------------------------------- conformance with a real gthread worker ----
+
+def _conf_task(t):
+    """Replays one explored history (default schedule) against a real gthread server; compares, per client, the number
+    of complete responses and whether the server closed the connection."""
+    import socket
+    import time
+    from vlib import realproc as rp
+    cfg, hist = t
+    r = run_history(cfg, hist)
+    if r["error"] or r["canon"] is None:
+        return None
+    w = r["world"]
+    want = {}
+    for k, st in w.clients.items():
+        c = st["sock"]
+        want[k] = (c.wbuf.count(b"HTTP/1.1 200 OK"), bool(c.closed))
+    has_tick = any(e[0] == "tick" for evs, _ in hist for e in evs)
+    s = rp.Server(worker_class="gthread", workers=1, bind="tcp", graceful_timeout=2, timeout=30, keepalive=cfg["keepalive"], threads=cfg["threads"],
+                  extra={"worker_connections": cfg["worker_connections"]})
+    conns = {}
+    halves = {}
+    nreq = {}
+    try:
+        if not s.start():
+            return ("infrastructure", "server did not start")
+        time.sleep(0.3)
+        for evs, _ch in hist:
+            for e in evs:
+                if e[0] == "connect":
+                    conns[e[1]] = s.connect()
+                    nreq[e[1]] = 0
+                elif e[0] == "send":
+                    k, kind = e[1], e[2]
+                    path = {"ka": "/plain", "close": "/plain", "gate": "/gate/g%d" % k, "half": "/plain", "pipe2": "/plain"}[kind]
+                    req = ("GET %s HTTP/1.1\r\nHost: h\r\n%s\r\n" % (path, "Connection: close\r\n" if kind == "close" else "")).encode()
+                    if kind == "half":
+                        conns[k].sendall(req[:10])
+                        halves[k] = req[10:]
+                    elif kind == "pipe2":
+                        conns[k].sendall(req + req)
+                    else:
+                        conns[k].sendall(req)
+                elif e[0] == "rest":
+                    conns[e[1]].sendall(halves.pop(e[1]))
+                elif e[0] == "close":
+                    if e[1] in conns:
+                        conns[e[1]].shutdown(socket.SHUT_WR)
+                elif e[0] == "release":
+                    for name in list(s.gate.held):
+                        s.gate.release(name)
+                elif e[0] == "tick":
+                    time.sleep(1.05)
+                elif e[0] == "steal":
+                    pass
+            s.gate.poll(0.25)
+        time.sleep(0.3)
+        got = {}
+        for k, c in conns.items():
+            c.setblocking(False)
+            data = b""
+            closed = False
+            try:
+                while True:
+                    d = c.recv(65536)
+                    if not d:
+                        closed = True
+                        break
+                    data += d
+            except (BlockingIOError, OSError):
+                pass
+            got[k] = (data.count(b"HTTP/1.1 200 OK"), closed)
+        for k in want:
+            if k not in got:
+                continue
+            if got[k][0] != want[k][0] or (not has_tick and got[k][1] != want[k][1]):
+                return ("mismatch", "history %r: client %d real (responses, closed)=%r, simulated %r" % ([list(map(list, evs)) for evs, _ in hist], k, got[k], want[k]))
+        return ("ok", "")
+    finally:
+        for c in conns.values():
+            try:
+                c.close()
+            except OSError:
+                pass
+        s.cleanup()
+
+
+def conformance(histories, n):
+    cfg = {"threads": 2, "worker_connections": 3, "keepalive": 2}
+    usable = [h for h in histories if h and all(e[0] != "steal" for evs, _ in h for e in evs) and all(not ch or not any(ch) for _evs, ch in h)]
+    step = max(1, len(usable) // n)
+    chosen = usable[::step][:n]
+    res = par.pmap(_conf_task, [(cfg, h) for h in chosen], jobs=10)
+    ok = sum(1 for r in res if r and r[0] == "ok")
+    confirmed = []
+    for h, r in zip(chosen, res):
+        if r and r[0] == "mismatch":
+            r2 = _conf_task((cfg, h))
+            if r2 and r2[0] == "mismatch":
+                confirmed.append(r2[1])
+            else:
+                ok += 1
+    return ok, confirmed
 
 
 CONFIGS_QUICK = [
-    ({"threads": 1, "worker_connections": 3, "keepalive": 2}, 5, 1),
+    ({"threads": 1, "worker_connections": 3, "keepalive": 2}, 4, 1),
     ({"threads": 2, "worker_connections": 3, "keepalive": 2}, 4, 1),
     ({"threads": 1, "worker_connections": 3, "keepalive": 0}, 4, 1),
-    ({"threads": 1, "worker_connections": 3, "keepalive": 2}, 3, 2),
+    ({"threads": 1, "worker_connections": 3, "keepalive": 2}, 2, 2),
     # keep-alive expiry with staggered deadlines: both clients connected, then only requests and ticks
     ({"threads": 1, "worker_connections": 3, "keepalive": 3, "menu_mode": "keepalive", "prefix": [[["connect", 0], ["connect", 1]]]}, 7, 0),
     # saturated by idle keep-alive connections: they must still be reaped when their time is up
@@ -386,15 +491,21 @@ def run(ctx):
     viols = []
     samples = []
     per = {}
+    conf_hist = None
     for cfg, depth, P in (CONFIGS_THOROUGH if ctx.thorough else CONFIGS_QUICK):
         st = explore(cfg, depth, P, batches=True)
+        if cfg == {"threads": 2, "worker_connections": 3, "keepalive": 2} and conf_hist is None:
+            conf_hist = st["histories"]
         for k in tot:
             tot[k] += st[k]
         viols += st["viols"]
         samples += st["samples"][:1]
         per["t%(threads)d/wc%(worker_connections)d/ka%(keepalive)d" % cfg + ("/" + cfg["menu_mode"] if "menu_mode" in cfg else "") + "/P%d" % P] = {"depth": depth, "preemptions": P, "states": st["states"], "transitions": st["transitions"], "executions": st["execs"]}
+    nconf, mism = conformance(conf_hist or [], 60 if ctx.thorough else 14)
+    if mism and not viols:
+        raise AssertionError("simulated selector/sockets disagree with a real gthread server: %r" % mism[:2])
     cov = {
-        "states": tot["states"], "transitions": tot["transitions"], "traces_validated_against_impl": 0,
+        "states": tot["states"], "transitions": tot["transitions"], "traces_validated_against_impl": nconf,
         "samples": samples or [[["connect", 0]]],
         "executions": tot["execs"],
         "evaluations": tot["execs"], "distinct_nontrivial": tot["states"],
@@ -411,7 +522,8 @@ def run(ctx):
                   ["scheduling points are the operations on shared state (lock, selector, sockets, executor/futures, _keep and futures containers); code between two points is atomic "
                    "(in particular `nr_conns += 1` is one step, as it is on the CPython 3.12 interpreter of this sandbox)",
                    "the environment moves only when every flow is blocked; up to two events may arrive together",
-                   "traces_validated_against_impl: 0 - the simulated selector/sockets are not replayed on real sockets here; C04/C10/C18 real-process runs exercise the real gthread worker"])
+                   "traces_validated_against_impl: explored histories (default schedule) of the threads=2 / worker_connections=3 / keepalive=2 configuration replayed against a real "
+                   "gthread server with real sockets; compared per client: complete responses received, and (for histories without ticks) whether the server closed the connection"])
 
 
 def replay(case):
